@@ -702,3 +702,10 @@ func resolveSpill(v ssa.Value, ret *ssa.Return) ssa.Value {
 	}
 	return v
 }
+
+func constOf(o types.Object) string {
+	if k, ok := o.(*types.Const); ok {
+		return k.Val().ExactString()
+	}
+	return ""
+}
